@@ -261,7 +261,7 @@ def qid_key(r):
         return ("grid", r["r"], r["c"])
     if t in ("NamedQubit", "NamedQid"):
         return ("named", r["n"])
-    return (t,) + tuple(sorted((k, str(v)) for k, v in r.items() if k not in ("T", "d")))
+    return (t,) + tuple(sorted((k, str(v + 0.0) if isinstance(v, (int, float)) else str(v)) for k, v in r.items() if k not in ("T", "d")))  # -0.0 == 0.0
 
 
 def qid_dim(r):
@@ -1214,7 +1214,8 @@ def circuit_op(draw, reg_, depth=0, no_measure=False):
     if plain and draw(st.booleans()):
         r["measurement_key_map"] = [[kk, draw(st.sampled_from(["mapped", "m2", kk + "_x"]))] for kk in plain[: draw(st.integers(1, len(plain)))]]
     if syms and draw(st.booleans()):
-        r["param_resolver"] = [[{"T": "S", "op": "sym", "n": s} if draw(st.booleans()) else s, draw(st.one_of(G.exponents(), _ssym()))]
+        # values that are valid wherever a symbol may stand (unit coefficient, probability, exponent, duration) or another symbol
+        r["param_resolver"] = [[{"T": "S", "op": "sym", "n": s} if draw(st.booleans()) else s, draw(st.one_of(st.sampled_from([1.0, 1]), _ssym()))]
                                for s in syms[: draw(st.integers(1, len(syms)))]]
     mode = draw(st.sampled_from(["plain", "reps", "reps", "reps_ids", "sym_reps", "until"]))
     invertible = True
